@@ -120,3 +120,207 @@ def coerce(v, d):
     if d.kind is complex:
         return complex(v)
     return datetime.combine(v, datetime.min.time())
+
+
+# ------------------------------------------------------------------ vectors (C07, C05, C06 ...)
+from serif.vector import Vector  # noqa: E402
+
+
+def vec(values, dtype, name, as_row):
+    """A vector with exactly these values / dtype / name / row flag (explicit dtype: no inference)."""
+    return Vector(tuple(values), dtype=dtype, name=name, as_row=as_row)
+
+
+def vec_inferred(values, name, as_row):
+    """A vector whose dtype is inferred from its values (None when empty)."""
+    return Vector(tuple(values), name=name, as_row=as_row)
+
+
+def copy_spec(self, new_values, name):
+    """C07: the copy holds new_values whenever an argument was passed (including an empty
+    selection), the vector's own values otherwise; dtype and row flag kept; name kept
+    unless given."""
+    if new_values is None:
+        values = self._underlying
+    else:
+        values = new_values
+    if name is ...:
+        use = self._name
+    else:
+        use = name
+    return vec(values, self._dtype, use, self._display_as_row)
+
+
+def is_bool_mask(key):
+    """A boolean mask: a non-nullable bool Vector, or a non-empty list of bools."""
+    if isinstance(key, Vector):
+        return key.schema() is not None and key.schema().kind is bool and not key.schema().nullable
+    if isinstance(key, list):
+        return len(key) > 0 and {type(e) for e in key} == {bool}
+    return False
+
+
+def getitem_spec(self, key):
+    """C07: Python sequence semantics, keeping dtype, name and row flag."""
+    vals = self._underlying
+    if isinstance(key, int):
+        return vals[key]
+    if isinstance(key, slice):
+        return vec(vals[key], self._dtype, self._name, self._display_as_row)
+    return vec([x for x, m in zip(vals, key) if m], self._dtype, self._name, self._display_as_row)
+
+
+# ------------------------------------------------------------------ C05 / C06 elementwise
+def is_plain_scalar(x):
+    """Operand treated as a scalar by the statement: not a vector, not a container."""
+    return not isinstance(x, (Vector, list, dict, tuple))
+
+
+def operand_values(other):
+    """Element sequence of a vector / plain-sequence operand."""
+    if isinstance(other, Vector):
+        return other._underlying
+    return other
+
+
+def compare_spec(self, other, op):
+    """C06/C07: non-nullable bool vector; False wherever an operand element is None, else
+    bool(op(x, y)) for the i-th operands in written order."""
+    if is_plain_scalar(other):
+        return vec([False if x is None else bool(op(x, other)) for x in self._underlying],
+                   DataType(bool, False), None, False)
+    return vec([False if (x is None or y is None) else bool(op(x, y))
+                for x, y in zip(self._underlying, operand_values(other))],
+               DataType(bool, False), None, False)
+
+
+def arith_spec(self, other, op):
+    """C05/C06: new unnamed vector, element i = op(self_i, other_i) in written order, None where
+    an operand element is None; dtype inferred from the result values (C04 rule)."""
+    if is_plain_scalar(other):
+        values = [None if x is None else op(x, other) for x in self._underlying]
+    else:
+        values = [None if (x is None or y is None) else op(x, y)
+                  for x, y in zip(self._underlying, operand_values(other))]
+    return vec(values, infer_spec(values), None, self._display_as_row)
+
+
+def length_mismatch(self, other):
+    if is_plain_scalar(other):
+        return False
+    return len(operand_values(other)) != len(self._underlying)
+
+
+def r_add(a, b):
+    return b + a
+
+
+def r_sub(a, b):
+    return b - a
+
+
+def r_truediv(a, b):
+    return b / a
+
+
+def r_floordiv(a, b):
+    return b // a
+
+
+def r_mod(a, b):
+    return b % a
+
+
+def r_pow(a, b):
+    return b ** a
+
+
+def unary_spec(self, op):
+    """C05/C06: element i = op(self_i), None staying None; name and row flag kept; dtype by the
+    inference rule on the result values (C03/C04)."""
+    values = [None if x is None else op(x) for x in self._underlying]
+    return vec(values, infer_spec(values), self._name, self._display_as_row)
+
+
+# ------------------------------------------------------------------ C06 / C12 reductions
+def non_none(values):
+    return [v for v in values if v is not None]
+
+
+def has_value(values):
+    return len(non_none(values)) > 0
+
+
+def sum_spec(values):
+    return sum(v for v in values if v is not None)
+
+
+def count_spec(values):
+    return sum(1 for v in values if v is not None)
+
+
+def mean_spec(values):
+    clean = [v for v in values if v is not None]
+    if len(clean) == 0:
+        return None
+    return sum(clean) / len(clean)
+
+
+def min_spec(values):
+    clean = [v for v in values if v is not None]
+    if len(clean) == 0:
+        return None
+    return min(clean)
+
+
+def max_spec(values):
+    clean = [v for v in values if v is not None]
+    if len(clean) == 0:
+        return None
+    return max(clean)
+
+
+def stdev_spec(values, population=False):
+    """Sample standard deviation of the non-None values (None for fewer than two)."""
+    clean = [v for v in values if v is not None]
+    n = len(clean)
+    if n < 2:
+        return None
+    m = sum(clean) / n
+    return (sum((x - m) * (x - m) for x in clean) / (n - 1 + population)) ** 0.5
+
+
+# ------------------------------------------------------------------ C11 join cardinality
+VALID_EXPECT = ('one_to_one', 'many_to_one', 'one_to_many', 'many_to_many')
+
+
+def need_right_unique(expect):
+    """'one_to_one' and 'many_to_one' require unique keys on the right."""
+    return expect == 'one_to_one' or expect == 'many_to_one'
+
+
+def need_left_unique(expect):
+    """'one_to_one' and 'one_to_many' require unique keys on the left."""
+    return expect == 'one_to_one' or expect == 'one_to_many'
+
+
+# ------------------------------------------------------------------ C14 sort keys
+def place_flag(is_none, rev, na_last):
+    """Leading component of a sort key such that, after sort(reverse=rev), None comes last
+    when na_last and first otherwise - whatever the direction."""
+    return (is_none == na_last) != rev
+
+
+def before_after_sort(kx, ky, rev):
+    """x is placed before y by a (stable) sort with reverse=rev when the keys differ."""
+    if rev:
+        return kx > ky
+    return kx < ky
+
+
+# ------------------------------------------------------------------ C18 binary names
+def binary_name(left, right):
+    """table-with-table keeps a left name only when the right name is absent or equal."""
+    if right is None or right == left:
+        return left
+    return None
